@@ -357,8 +357,19 @@ class _Linalg(object):
     LinAlgError = _np.linalg.LinAlgError
 
     @staticmethod
-    def norm(x, ord=None):
+    def norm(x, ord=None, axis=None, keepdims=False):
         x = arr.asarr(x)
+        if axis is not None and x.ndim == 2 and ord in (None, 2):
+            ax = axis if axis >= 0 else axis + 2
+            rows = [x[i, :] if ax == 1 else x[:, i] for i in range(x.shape[1 - ax])]
+            out = SArr.from_flat([_Linalg.norm(r_) for r_ in rows], (len(rows),), 'f')
+            if keepdims:
+                out = out.reshape((len(rows), 1) if ax == 1 else (1, len(rows)))
+            return out
+        if axis is not None and x.ndim == 1 and axis in (0, -1):
+            axis = None
+        if axis is not None:
+            raise core.PathAbort('unsupported', 'norm axis=%r ndim=%d' % (axis, x.ndim))
         if x.ndim == 1 and ord in (None, 2):
             r = arr.vec_norm(x)
             if HOOKS.norm_positive and core.CUR is not None and isinstance(r, SFloat):
